@@ -116,7 +116,11 @@ func runImpl(prog *parser.Program, input string, args []string, dir string, uses
 }
 
 func refObs(prog *parser.Program, input string, args []string) (implObs, string) {
-	r := vexp.RunRef(prog, &vexp.RefConfig{Stdin: input, Args: args, Files: map[string]string{"pre": c01Pre}, Environ: []string{"HOME", "/h"}, StepLimit: 20000})
+	return refObsLimit(prog, input, args, 20000)
+}
+
+func refObsLimit(prog *parser.Program, input string, args []string, limit int) (implObs, string) {
+	r := vexp.RunRef(prog, &vexp.RefConfig{Stdin: input, Args: args, Files: map[string]string{"pre": c01Pre}, Environ: []string{"HOME", "/h"}, StepLimit: limit})
 	o := implObs{Out: r.Stdout, Status: r.Status, Err: r.Err != "", ErrMsg: r.Err, Files: r.Files}
 	return o, r.Unsupported
 }
@@ -187,14 +191,18 @@ func c01Eval(c *core.Ctx, st *c01State, pc progenum.Case, inputs []string) {
 	uf := usesFiles(pc.Src)
 	for _, in := range inputs {
 		cs := c01Case{Family: pc.Family, Name: pc.Name, Src: pc.Src, Input: in, Group: pc.Group}
-		impl := runImpl(prog, in, nil, st.dir, uf, 200000)
+		budget, refLimit := 200000, 20000
+		if pc.Family == "longrun" {
+			budget, refLimit = 20000000, 3000000
+		}
+		impl := runImpl(prog, in, nil, st.dir, uf, budget)
 		c.Eval(1)
 		c.Add("transitions", 1)
 		if impl.Panic != "" {
 			c.Fail("panic:"+pc.Family, cs, firstLine(impl.Panic))
 			continue
 		}
-		ref, unsup := refObs(prog, in, nil)
+		ref, unsup := refObsLimit(prog, in, nil, refLimit)
 		if unsup != "" {
 			c.Add("ref_unsupported", 1)
 			if impl.Budget && unsup != "step limit" {
@@ -255,8 +263,11 @@ func c01Run(c *core.Ctx) {
 		n++
 		c.Add("states", 1)
 		inputs := c01Inputs
-		if pc.Family == "cond" || pc.Family == "concat" {
+		if pc.Family == "cond" || pc.Family == "concat" || pc.Family == "boolvalue" {
 			inputs = []string{"10 9 abc\n", "a b\n"}
+		}
+		if pc.Family == "longrun" {
+			inputs = []string{progenum.LongInput(1300)}
 		}
 		if pc.Family == "pairs" && c.Thorough() {
 			inputs = []string{"1 2\n3 4\n5"}
@@ -287,7 +298,7 @@ func init() {
 	core.Register(&core.Check{
 		ID:    "C01",
 		Level: "model_checking",
-		Rule: "bounded-exhaustive enumeration of a feature-product program grammar (families: lvalue kind x operation x rhs x form x scope; comparison/boolean conditions x 11 constructs; " +
+		Rule: "bounded-exhaustive enumeration of a feature-product program grammar (families: lvalue kind x operation x rhs x form x scope; comparison/boolean conditions x 11 constructs; long-run programs (1300 records: next/nextfile/exit/return/getline/close/delete inside functions and loops, >100 distinct dynamic regexes and formats: state that leaks per record or per call); values of !, && and || over 12 left x 14 right operands in 8 value contexts, each grouped with its ?: spelling; " +
 			"concatenation chains in every grouping; user-call shapes; builtins; loop nests x break/continue placements; patterns/getline/IO forms; thorough: all ordered pairs of 50 statements) x inputs; " +
 			"state = one program, transition = one execution on the real compiler+VM; each execution is compared with the reference tree evaluator (traces_validated_against_impl) and with its metamorphic group; distinct = distinct observations",
 		Assumptions: []string{
